@@ -149,6 +149,8 @@ where
     iter: LineColIterator<io::Bytes<R>>,
     /// Temporary storage of peeked byte.
     ch: Option<u8>,
+    /// Position in front of the peeked byte, which `iter` has already counted.
+    ch_position: Position,
 }
 
 /// S-expression input source that reads from a slice of bytes.
@@ -184,6 +186,7 @@ where
         IoRead {
             iter: LineColIterator::new(reader.bytes()),
             ch: None,
+            ch_position: Position { line: 1, column: 0 },
         }
     }
 }
@@ -262,14 +265,18 @@ where
     fn peek(&mut self) -> Result<Option<u8>> {
         match self.ch {
             Some(ch) => Ok(Some(ch)),
-            None => match self.iter.next() {
-                Some(Err(err)) => Err(Error::io(err)),
-                Some(Ok(ch)) => {
-                    self.ch = Some(ch);
-                    Ok(self.ch)
+            None => {
+                let position = self.peek_position();
+                match self.iter.next() {
+                    Some(Err(err)) => Err(Error::io(err)),
+                    Some(Ok(ch)) => {
+                        self.ch = Some(ch);
+                        self.ch_position = position;
+                        Ok(self.ch)
+                    }
+                    None => Ok(None),
                 }
-                None => Ok(None),
-            },
+            }
         }
     }
 
@@ -279,16 +286,20 @@ where
     }
 
     fn position(&self) -> Position {
-        Position {
-            line: self.iter.line(),
-            column: self.iter.col(),
+        match self.ch {
+            // A peeked byte has not been consumed yet, so it does not count
+            Some(_) => self.ch_position,
+            None => self.peek_position(),
         }
     }
 
     fn peek_position(&self) -> Position {
         // The LineColIterator updates its position during peek() so it has the
         // right one here.
-        self.position()
+        Position {
+            line: self.iter.line(),
+            column: self.iter.col(),
+        }
     }
 
     fn byte_offset(&self) -> usize {
